@@ -1026,11 +1026,13 @@ func (m *Manager) PoolTransaction(id types.TransactionID) (types.Transaction, bo
 	m.mu.Lock()
 	defer m.mu.Unlock()
 	m.revalidatePool()
+	// NOTE: indices is shared by the v1 and v2 slices, so the position must be
+	// checked against this slice
 	i, ok := m.txpool.indices[id]
-	if !ok {
+	if !ok || i >= len(m.txpool.txns) || m.txpool.txns[i].ID() != id {
 		return types.Transaction{}, false
 	}
-	return m.txpool.txns[i], ok
+	return m.txpool.txns[i], true
 }
 
 // PoolTransactions returns the transactions currently in the txpool. Any prefix
@@ -1048,11 +1050,13 @@ func (m *Manager) V2PoolTransaction(id types.TransactionID) (types.V2Transaction
 	m.mu.Lock()
 	defer m.mu.Unlock()
 	m.revalidatePool()
+	// NOTE: indices is shared by the v1 and v2 slices, so the position must be
+	// checked against this slice
 	i, ok := m.txpool.indices[id]
-	if !ok {
+	if !ok || i >= len(m.txpool.v2txns) || m.txpool.v2txns[i].ID() != id {
 		return types.V2Transaction{}, false
 	}
-	return m.txpool.v2txns[i].DeepCopy(), ok
+	return m.txpool.v2txns[i].DeepCopy(), true
 }
 
 // V2PoolTransactions returns the v2 transactions currently in the txpool. Any
